@@ -74,6 +74,7 @@ type EpCase struct {
 	Violates string   `json:"violates,omitempty"`
 	Leaked   []string `json:"leaked,omitempty"`
 	Final    *EpObs   `json:"final,omitempty"` // after teardown
+	Final0   *EpObs   `json:"final0,omitempty"` // after teardown, handlers possibly still inside application code
 }
 
 type epRemote struct {
@@ -572,8 +573,9 @@ func RunEp(t *testing.T, calls []EpCall, choose func(step int, v *EpView) (EpCho
 			res.Trace = append(res.Trace, EpStep{C: c, Obs: o})
 		}
 
-		// ---- teardown: cancel everything, make reads fail, release every parked goroutine ----
-		s.Abort()
+		// ---- teardown: cancel everything, make reads fail, release every parked goroutine of panrpc;
+		// handlers that are still inside application code (handler.gate) stay there for now ----
+		s.AbortKeep("handler.gate")
 		for _, c := range cancels {
 			c()
 		}
@@ -590,6 +592,13 @@ func RunEp(t *testing.T, calls []EpCall, choose func(step int, v *EpView) (EpCho
 				}
 			}
 		}()
+		synctest.Wait()
+		if teardown {
+			// nothing may be left of the link except handlers still executing application code
+			o := observe()
+			res.Final0 = &o
+		}
+		s.Abort() // the application lets its handlers return
 		synctest.Wait()
 		close(done)
 		synctest.Wait()
